@@ -8,7 +8,8 @@ import pandas as pd
 
 from fv import design
 
-RICH_NUM = ["x", "z", "binary(f, 'a')", "B(g)", "center(x)", "scale(z)", "bs(x, df=4)", "poly(z, 2)", "np.log(z)", "I(x ** 2)", "bs(z, df=3, degree=2)", "standardize(x)", "poly(x, 2, raw=True)", "scale(center(z))"]
+RICH_NUM = ["x", "z", "binary(f, 'a')", "B(g)", "center(x)", "scale(z)", "bs(x, df=4)", "poly(z, 2)", "np.log(z)", "I(x ** 2)", "bs(z, df=3, degree=2)", "standardize(x)", "poly(x, 2, raw=True)", "scale(center(z))",
+            "bs(x, knots=KN)", "bs(z, knots=KZ, degree=2, intercept=True)"]
 RICH_CAT = ["f", "g", "h", "o", "C(k)", "C(f, Sum)", "T(h, 'B-y')", "S(g)", "C(k, levels=KL)"]
 
 
@@ -26,19 +27,29 @@ def gen_text_formula(rng, groups=True, rich=True, max_terms=4):
             t = rng.choice(cats)
         elif r < 0.8:
             a, b = rng.choice(cats), rng.choice(nums)
-            t = rng.choice([f"{a} + {b} + {a}:{b}", f"{a}*{b}"])
+            t = rng.choice([f"{a} + {b} + {a}:{b}", f"{a}*{b}", f"{a}/{b}", f"{b} + {a}:{b}"])
         else:
             a, b = rng.sample(cats[:5], 2)
-            t = f"{a} + {b} + {a}:{b}"
+            t = rng.choice([f"{a} + {b} + {a}:{b}", f"{a}/{b}", f"{a}*{b}", f"{a}:({b} + x)"])
         if t not in parts:
             parts.append(t)
     if groups and rng.random() < 0.5:
         fac = rng.choice(["g", "h", "g:h", "C(k)"])
-        eff = rng.choice(["1", "x", "center(x)", "0 + f", "scale(z)", "f"])
+        eff = rng.choice(["1", "x", "center(x)", "0 + f", "scale(z)", "f", "bs(x, df=3)", "0 + poly(z, 2)", "0 + bs(x, knots=KN)", "f:x"])
         parts.append(f"({eff} | {fac})")
     if parts == ["0"]:
         parts.append("x")
     return "y ~ " + " + ".join(parts)
+
+
+def namespace(w, rng=None):
+    """Names the rich formulas take from the caller: explicit levels and explicit spline knots
+    (strictly inside the range of the training data)."""
+    xs, zs = np.asarray(w.df["x"], dtype=float), np.asarray(w.df["z"], dtype=float)
+    kl = sorted(set(w.cols["k"]["v"]))
+    if rng is not None and rng.random() < 0.5:
+        kl = kl[::-1]
+    return {"KL": kl, "KN": [float(np.percentile(xs, 35)), float(np.percentile(xs, 70))], "KZ": [float(np.percentile(zs, 50))]}
 
 
 def intern(mats, tol=1e-9):
